@@ -52,6 +52,7 @@ type ptIn struct {
 	Meas   string                     `json:"meas"`
 	Tags   map[string]string          `json:"tags"`
 	Fields map[string]json.RawMessage `json:"fields"`
+	Lz     string                     `json:"lz"` // the zone the host process is in during this run ("" = UTC)
 }
 
 func (p ptIn) goFields() (map[string]any, error) {
@@ -126,7 +127,7 @@ func (p ptIn) tlc() (map[string]any, error) {
 		ks = append(ks, k)
 		es = append(es, map[string]any{"flag": "tag", "v": encVal(p.Tags[k])})
 	}
-	return map[string]any{"meas": p.Meas, "ks": ks, "es": es, "time": encI64(fixedTime.UnixNano())}, nil
+	return map[string]any{"meas": p.Meas, "ks": ks, "es": es, "time": encI64(fixedTime.UnixNano()), "lz": intsOf(p.Lz)}, nil
 }
 
 func (p ptIn) build() (*input.Point, error) {
@@ -479,6 +480,13 @@ func runOnce(ps *progSet, fireAt, budget int) runResult {
 		res.pt = pt
 		if fireAt == 0 {
 			failedEarlierRun(ps) // between the load and the run: nothing in between restores what the failed run left
+		}
+		if ps.Pt.Lz != "" { // the host process is in this zone while the script runs (and back in UTC afterwards)
+			if loc, lerr := time.LoadLocation(ps.Pt.Lz); lerr == nil {
+				old := time.Local
+				time.Local = loc
+				defer func() { time.Local = old }()
+			}
 		}
 		res.err = ok[ps.Main].Run(pt, signalFor(o, fireAt))
 	}()
